@@ -88,12 +88,14 @@ def cases(tier, seed):
                 out.append({"kind": "run", "cls": solver, "solver": solver, "idx": idx, "seed": seed, "maxd": maxd, "nseeds": 1, "dims": list(dims)})
                 idx += 1
     for dims in ([(40, 30), (36, 24), (30, 22), (24, 16)] if tier == "quick" else [(20, 14), (24, 16), (30, 20), (40, 30), (36, 24), (30, 22), (48, 40), (26, 13)]):
-        for solver in ("rsp_column_spd", "hybrid"):
+        for solver in (("hybrid",) if tier == "quick" else ("rsp_column_spd", "hybrid")):      # the SPD sketch solver takes ~20 s per problem of this size
             out.append({"kind": "run", "cls": solver + ":wide_block", "solver": solver, "idx": idx, "seed": seed, "maxd": maxd, "nseeds": 1, "dims": list(dims),
                         "wide_block": True})
             idx += 1
-    for st_ in ("herm_pd", "nearly_herm_pd", "nearly_herm_pd", "diag", "upper_tri", "unitary_scaled", "real_only", "zero_row_tall"):
+    for st_ in ("herm_pd", "nearly_herm_pd", "nearly_herm_pd", "diag", "upper_tri", "unitary_scaled", "real_only", "zero_row_tall", "column_scaled", "row_scaled"):
         for solver in ("rsp_column_qr", "rsp_column_spd", "rsp_row", "rsp_compute", "hybrid", "cgne"):
+            if tier == "quick" and st_ in ("column_scaled", "row_scaled") and solver in ("rsp_column_spd", "rsp_row", "rsp_compute"):
+                continue                   # cost: 20 s and more per run for the badly scaled 16-column problems
             for k in range(2 if tier == "quick" else 8):
                 out.append({"kind": "run", "cls": solver + ":structured", "solver": solver, "idx": idx, "seed": seed, "maxd": maxd, "nseeds": 2, "structure": st_})
                 idx += 1
@@ -134,6 +136,17 @@ def _matrix(rng, spec, orientation):
             A = refq.rand_unitary(rng, n_) * 2.5
         elif st_ == "real_only":
             A = gen.structured(rng, "real_only", n_, n_) + refq.diagq(np.full(n_, 3.0), n_, n_)
+        elif st_ in ("column_scaled", "row_scaled"):
+            # badly scaled columns (rows): norms 1, 1/20, 1/200 in turn on a well-conditioned tall matrix with 12 .. 16 columns (cond <= 1e3, in the
+            # domain): an equilibrated system has other residuals than the one the caller asked about
+            n_ = int(rng.integers(12, 17)); m_ = n_ + int(rng.integers(2, 20))
+            A, _, _ = refq.with_singular_values(rng, m_, n_, np.linspace(2.0, 1.0, n_))
+            if st_ == "column_scaled":
+                A = A * np.resize(np.array([1.0, 1.0 / 200.0, 1.0 / 20.0]), n_)[None, :]
+            else:
+                A = A * np.resize(np.array([1.0, 1.0 / 100.0, 1.0 / 10.0]), m_)[:, None]
+            if orientation != "tall":
+                A = refq.herm(A)
         elif st_ == "zero_row_tall":
             # tall, full column rank, one exactly zero row, 8..12 columns (blocks of that width are genuine blocks): the matching column of
             # the pseudoinverse is exactly zero and nothing the solver measures depends on it
